@@ -75,3 +75,7 @@ def register_conf(add0, CONF):
         add('bn_mul_basic.%s' % sh, ['C01', 'C08'], 'bn_mul_basic', sources=[MULC, 'src/bn/relic_bn_mem.c'], headers=['bn_mul.h'], defines=['VC_SHAPE_bn_mul_basic=' + mac],
             decls='bn_st *c, *a, *b;', call='bn_mul_basic(c, a, b)', replace=['bn_mula_low', 'bn_trim', 'bn_copy', 'bn_zero'], route='proof', unwind=N, conf=CONF, timeout=900, flags=['--object-bits', '9'],
             bound_note=BOUND, note='digit product uninterpreted (see bn_mul.h)')
+    for sh, mac in [('none', 'VC_S3_NONE'), ('ca', 'VC_S3_CA'), ('ab', 'VC_S3_AB')]:
+        add('bn_mul_comba.%s' % sh, ['C01', 'C08'], 'bn_mul_comba', sources=[MULC, 'src/bn/relic_bn_mem.c'], headers=['bn_mul.h'], defines=['VC_SHAPE_bn_mul_comba=' + mac, 'VC_COMBA_MAX=6'],
+            decls='bn_st *c, *a, *b;', call='bn_mul_comba(c, a, b)', replace=['bn_muln_low', 'bn_muld_low', 'bn_trim', 'bn_copy'], route='bounded', unwind=N, conf=CONF, timeout=900,
+            flags=['--object-bits', '9'], bound_note='used(a) + used(b) <= 6 digits (the Comba kernels time out beyond); digit product uninterpreted', note='digit product uninterpreted (see bn_mul.h)')
